@@ -69,3 +69,34 @@ Theorem C06_stale_push_kills_new_stream :
     option_map o_res (nth_error os 17) = Some [0; 1] /\
     option_map o_res (nth_error os 20) = Some [0; 0].
 Proof. exact stale_push_kills_new_stream. Qed.
+
+(* ---- the flow model is the projection of the endpoint model onto one flow (Mux/Project.v):
+   the endpoint's function acts on the stream object as the flow label does, returns the same
+   result and puts on the wire the frames the flow model puts in flight ---- *)
+From PV Require Import Mux.Sys Mux.Project.
+
+Theorem C06_drop_projects : forall f sid oid s x y f' res,
+  live_stream (f_ep f) sid = Some (oid, s) -> e_tx_closed (f_ep f) = false ->
+  running (e_phase (f_ep f)) = true ->
+  slot_get (e_slots (f_ep f)) (st_id s) = Some (SEstablished oid) ->
+  R_view x (e_rwnd (f_ep f)) s -> S_view y s ->
+  do_drop_stream f sid = (f', res) ->
+  let x' := fst (F.step x F.AbortR) in
+  let y' := fst (F.step y F.AbortS) in
+  res = [0] /\
+  exists s', get_stream (f_ep f') oid = Some s' /\ R_view x' (e_rwnd (f_ep f)) s' /\ S_view y' s' /\
+    st_id s' = st_id s /\ slot_get (e_slots (f_ep f')) (st_id s) = None /\
+    exists added, F.wsr y' = F.wsr y ++ added /\ f_out f' = f_out f ++ map (wire (st_id s)) added.
+Proof. exact drop_projects. Qed.
+
+Theorem C06_reset_projects : forall f id wd oid s x y r f' rr,
+  slot_get (e_slots (f_ep f)) id = Some (SEstablished oid) -> get_stream (f_ep f) oid = Some s ->
+  e_tx_closed (f_ep f) = false ->
+  R_view x (e_rwnd (f_ep f)) s -> S_view y s -> F.wsr x = F.FRst :: r ->
+  process_frame f (Reset id) wd = (f', rr) ->
+  let x' := fst (F.step x F.DelSR) in
+  let y' := fst (F.step y F.KillS) in
+  rr = RxContinue /\ F.wsr x' = r /\ F.wsr y' = F.wsr y /\
+  exists s', get_stream (f_ep f') oid = Some s' /\ R_view x' (e_rwnd (f_ep f)) s' /\ S_view y' s' /\
+    st_id s' = st_id s /\ slot_get (e_slots (f_ep f')) id = None /\ f_out f' = f_out f.
+Proof. exact reset_projects. Qed.
